@@ -1,5 +1,7 @@
 // Simulation core + link-time interposers.  See sim.h.
 #include "sim.h"
+#include <sys/select.h>
+#include <dlfcn.h>
 #include <sanitizer/common_interface_defs.h>
 #include <arpa/inet.h>
 #include <cerrno>
@@ -452,6 +454,34 @@ void __real_coap_ticks(coap_tick_t *t);
 void __wrap_coap_ticks(coap_tick_t *t) {
   if (W) *t = (coap_tick_t)W->now;
   else __real_coap_ticks(t);
+}
+
+// select(): libcoap waits a few milliseconds for the peer's WebSocket Close inside coap_ws_close().  For virtual sockets the answer is
+// what is readable at this instant (no waiting: virtual time does not move inside such a wait).  Linked only where a check asks for it.
+static int real_select(int nfds, fd_set *r, fd_set *wr, fd_set *ex, struct timeval *tv) {
+  // (not __real_select: this file is also linked into checks that do not wrap select())
+  typedef int (*fn_t)(int, fd_set *, fd_set *, fd_set *, struct timeval *);
+  static fn_t fn = (fn_t)dlsym(RTLD_NEXT, "select");
+  return fn(nfds, r, wr, ex, tv);
+}
+int __wrap_select(int nfds, fd_set *r, fd_set *wr, fd_set *ex, struct timeval *tv) {
+  if (!W || !r) return real_select(nfds, r, wr, ex, tv);
+  bool any_virtual = false;
+  int ready = 0;
+  fd_set out;
+  FD_ZERO(&out);
+  for (int fd = 0; fd < nfds && fd < FD_SETSIZE; fd++) {
+    if (!FD_ISSET(fd, r)) continue;
+    VSock *v = W->by_fd(fd);
+    if (!v) continue;
+    any_virtual = true;
+    if (!v->rbytes.empty() || !v->rxq.empty() || v->eof || !v->pending.empty()) { FD_SET(fd, &out); ready++; }
+  }
+  if (!any_virtual) return real_select(nfds, r, wr, ex, tv);
+  *r = out;
+  if (wr) FD_ZERO(wr);
+  if (ex) FD_ZERO(ex);
+  return ready;
 }
 
 int __real_close(int fd);
